@@ -219,6 +219,42 @@ def crash_oracle(case, obs):
                     if sent_at >= down[1] + tick:
                         out.append(("event %d: the client received a reply to datagram %d (sent at %d ns) while n0 is down since event %d" % (
                             k, x[4], sent_at, down[0]), None))
+    # --- multicast: the other members of a group survive the crash / bounce of one member ---------
+    members = [0] + list(case["cfg"].get("mc_members", []))
+    for (k, name, victims, before, after, r) in faults:
+        if r != "ok" or before is None or after is None:
+            continue
+        for m in members:
+            if m in victims:
+                continue
+            if before["hosts"][m]["mcast"] and after["hosts"][m]["mcast"] != before["hosts"][m]["mcast"]:
+                out.append(("event %d (%s of %s): multicast memberships of the untouched member n%d went from %s to %s" % (
+                    k, name, victims, m, before["hosts"][m]["mcast"], after["hosts"][m]["mcast"]), None))
+    # ... and keeps receiving what is sent to the group (the client sends id 1000+i at i * tick)
+    if not any(1 in vv for (_, _, vv, _, _, _) in faults) and evs:
+        end_time = 0
+        for e in evs:
+            for key in ("before", "after", "snap"):
+                if isinstance(e.get(key), dict):
+                    end_time = max(end_time, e[key]["elapsed"])
+        nsteps = sum(1 for e in evs if e["k"] == "step")
+        end_time = max(end_time, nsteps * tick)
+        for m in members:
+            if m == 0 or any(m in vv for (_, _, vv, _, _, _) in faults):
+                continue
+            joined = [x for x in log if x[0] == m and x[2] == "mc" and x[3] == "join"]
+            if not joined or not joined[0][4]:
+                continue
+            t_join = joined[0][7]
+            got = {x[4] for x in log if x[0] == m and x[2] == "mc" and x[3] == "recv"}
+            i = 0
+            while i * tick + lat + 2 * tick <= end_time:
+                if i * tick >= t_join + tick and (1000 + i) not in got:
+                    out.append(("member n%d of the multicast group never received datagram %d sent to the group at %d ns "
+                                "(it joined at %d ns and was never crashed or bounced; faults: %s)" % (
+                                    m, 1000 + i, i * tick, t_join, [(kk, nn, vv) for (kk, nn, vv, _, _, _) in faults]), None))
+                    break
+                i += 1
     # --- what reached the server while it was down is not handed to the new incarnation ----------
     down_from = None
     client_untouched = not any(1 in vv for (_, _, vv, _, _, _) in faults)   # ids / attempts are numbered per client incarnation
@@ -253,11 +289,15 @@ def crash_oracle(case, obs):
     # (with random_node_order the shuffle draws depend on how many hosts run, so the
     # interleaving of other hosts legitimately differs; compared for the fixed order only)
     if "twin_log" in obs and not (touched & {2, 3}) and not case["cfg"].get("random_order"):
-        mine = [e for e in log if e[0] >= 2]
-        if mine != obs["twin_log"]:
-            diff = next((i for i, (a, b) in enumerate(zip(mine, obs["twin_log"])) if a != b), min(len(mine), len(obs["twin_log"])))
+        # what the multicast members among n2/n3 receive comes from the client n1: comparable
+        # only when n1 itself is untouched
+        keep = (lambda e: True) if 1 not in touched else (lambda e: e[2] != "mc")
+        mine = [e for e in log if e[0] >= 2 and keep(e)]
+        twin = [e for e in obs["twin_log"] if keep(e)]
+        if mine != twin:
+            diff = next((i for i, (a, b) in enumerate(zip(mine, twin)) if a != b), min(len(mine), len(twin)))
             out.append(("the uninvolved pair n2/n3 behaved differently from the crash-free twin run from record %d on: %s vs %s" % (
-                diff, mine[diff:diff + 1], obs["twin_log"][diff:diff + 1]), None))
+                diff, mine[diff:diff + 1], twin[diff:diff + 1]), None))
     for k, e in enumerate(evs):
         if e["k"] == "step" and not e["r"].startswith("ok"):
             out.append(("event %d: step returned %s" % (k, e["r"]), None))
@@ -379,6 +419,8 @@ class Spec(PropSpec):
             net += FC.crash_points(tick, lat, who)
         if quick:
             net = rng.sample(net, 150)
+        mcp = FC.multicast_points()
+        net += rng.sample(mcp, 110) if quick else mcp
         net += [FC.gen_random(rng) for _ in range(60 if quick else 800)]
         return core + net
 
